@@ -202,7 +202,7 @@ CLAIMED.update({
              "version (after the fix recorded in known_findings.json) and the ready list is complete. Tied to /repo by an event-stream oracle "
              "and exact call-sequence correspondence incl. multi-producer signals and two-signal waiters in cycles.",
         design_ref="DESIGN.md section 5 C17",
-        note="'some producer has completed' (provenance of values) is checked by the event oracle, not proved.",
+        note="Provenance ('a producer of the awaited signal has completed', C17_after_producer) is proved under the executor contract that a node returns values for its declared outputs only; iteration counts of signal-synchronised loops are decided by the oracle (SpecWhile).",
         technique="Coq proof (ready-list characterisation, version arithmetic) + event-stream oracle",
     ),
     "C19": dict(
@@ -261,7 +261,8 @@ CLAIMED["C20"] = dict(
          "representatives, every edge justified by a dependency / graph input / END target / output). The renderer is not modelled: "
          "EVERY drawing it produces for the generated graphs (every valid expansion state x both output modes of the interactive data, Mermaid "
          "at every depth x both modes) is validated by that checker against ground truth read from the real Graph objects; to_flat_graph, the "
-         "state set and build_expansion_state are compared with the model.",
+         "state set, build_expansion_state and the producer / consumer maps by visibility (viz/_common.py, modelled in VizMaps.v with theorems on what "
+         "they contain) are compared with the model.",
     design_ref="DESIGN.md section 5 C20",
     note="partial: faithfulness of the renderer is translation validation per generated drawing by a proved checker, not a theorem about "
          "renderer code (viz/renderer/*.py, mermaid.py are heuristic and not modelled); known finding F-k (values renamed at container "
